@@ -458,6 +458,7 @@ def plan(tier, seed):
     for i in range(11):
         shards.append({"kind": "synthetic", "n": 60 if q else 5000})
     shards.append({"kind": "crafted"})
+    shards.append({"kind": "crafted", "part": 1})
     shards.append({"kind": "junk", "n": 60 if q else 4000})
     shards.append({"kind": "http", "n": 1500 if q else 100000})
     for name in SAMPLES:
@@ -521,6 +522,33 @@ def run_shard(shard, ctx):
             check_case({"data": data, "seed_kind": which, "fault": fault, "calls": calls_for(rng, k, data, tier)}, ctx)
     elif kind == "crafted":
         marks = [P.rx1(x, 0x8A) for x in (b"\x00\x05\x00\x01\x00\x02", b"\x00\x06\x00\x01\x00\x02", b"\x00\x07\x00\x01\x00\x02", b"\x00\x08\x00\x02\x00\x04")]
+        if shard.get("part") == 1:
+            # the costly crafted groups, in a shard of their own
+            # a whole, uniform or short-periodic 6144-byte area in front of the marker (one distinct n-gram per key length)
+            for pat in (b"\0", b"\x2e", b"\xcc", b"\xcc\x90", b"abc", bytes(range(256)), b"\x8a"):
+                for lead in (0, 5):
+                    area = (pat * (6144 // len(pat) + 1))[:6144]
+                    for m, tail in ((marks[0], b""), (marks[1], bytes(2048)))[lead > 0 :]:
+                        # (each case costs a complete environmental-key search under the loop monitor: a second or so)
+                        a = area[-6:]
+                        pair = a + bytes(x ^ y for x, y in zip(a[::-1], m))
+                        data = P.filler(rng, lead) + area[:-6] + pair + tail
+                        for ep in ("from_bytes", "from_path")[: 2 if lead == 0 and not tail and len(pat) == 1 else 1]:
+                            check_case({"data": data, "seed_kind": "crafted-guard-marker", "fault": f"uniform-area={pat[:4]!r},lead={lead}", "calls": [(ep, "default")]}, ctx)
+            # header fields that point beyond a memory mapping (a mapping refuses the seek, BytesIO does not)
+            for arch in ("x86", "x64"):
+                blk = P.rx1((tlv.short(1, 8) + tlv.short(2, 443)).ljust(30, b"\0"), 0x2E)
+                img, info = P.build_pe(rng, arch=arch, nsec=2, export_section=0, data=blk)
+                fields, _ = pe_fields(info, 0, arch, 2)
+                for name, off, width in fields:
+                    if width != 4 or name in ("pe.signature", "TimeDateStamp"):
+                        continue
+                    for val in (0x10000000, 0x7FFFFFFF, 0xFFFFFFFF, len(img), len(img) - 1):
+                        d = bytearray(img)
+                        struct.pack_into("<I", d, off, val)
+                        for ep in ("find_compile_stamps:mmap", "find_stage_prepend_append:mmap", "find_magic_pe:mmap", "from_file:mmap"):
+                            check_case({"data": bytes(d), "seed_kind": "crafted-mmap", "fault": f"mmap,{name}={val:#x}", "calls": [(ep, "default")]}, ctx)
+            return
         for off in range(0, 13):
             for m in marks:
                 a = P.filler(rng, 6)
@@ -529,16 +557,6 @@ def run_shard(shard, ctx):
                     data = P.filler(rng, off) + pair + tail
                     for ep in ("from_bytes", "from_path"):
                         check_case({"data": data, "seed_kind": "crafted-guard-marker", "fault": f"marker@{off}", "calls": [(ep, "default")]}, ctx)
-        # a whole, uniform or short-periodic 6144-byte area in front of the marker (one distinct n-gram per key length)
-        for pat in (b"\0", b"\x2e", b"\xcc", b"\xcc\x90", b"abc", bytes(range(256)), b"\x8a"):
-            for lead in (0, 1, 5):
-                area = (pat * (6144 // len(pat) + 1))[:6144]
-                for m in marks[:2]:
-                    a = area[-6:]
-                    pair = a + bytes(x ^ y for x, y in zip(a[::-1], m))
-                    data = P.filler(rng, lead) + area[:-6] + pair + rng.choice([b"", bytes(2048), P.filler(rng, 2100)])
-                    for ep in ("from_bytes", "from_path"):
-                        check_case({"data": data, "seed_kind": "crafted-guard-marker", "fault": f"uniform-area={pat[:4]!r},lead={lead}", "calls": [(ep, "default")]}, ctx)
         for size in (0, 1, 2**31 - 1, 2**31, 2**32 - 1):
             for off in (0, 1, 7):
                 data = bytes(off) + struct.pack("<II", off + 16, size) + b"KEY!" + b"hintHINT" + b"payload"
@@ -572,19 +590,6 @@ def run_shard(shard, ctx):
             for cut in (70, 200, info["lfanew"] + 10, info["lfanew"] + 30, 900, 1500):
                 for ep in ("find_mz_offset", "find_architecture", "find_compile_stamps", "find_magic_mz", "find_magic_pe", "find_stage_prepend_append"):
                     check_case({"data": img[:cut], "seed_kind": "crafted-mmap", "fault": f"mmap,truncate@{cut}", "calls": [(ep + ":mmap", "default")]}, ctx)
-        # header fields that point beyond a memory mapping (a mapping refuses the seek, BytesIO does not)
-        for arch in ("x86", "x64"):
-            blk = P.rx1((tlv.short(1, 8) + tlv.short(2, 443)).ljust(30, b"\0"), 0x2E)
-            img, info = P.build_pe(rng, arch=arch, nsec=2, export_section=0, data=blk)
-            fields, _ = pe_fields(info, 0, arch, 2)
-            for name, off, width in fields:
-                if width != 4 or name in ("pe.signature", "TimeDateStamp"):
-                    continue
-                for val in (0x10000000, 0x7FFFFFFF, 0xFFFFFFFF, len(img), len(img) - 1):
-                    d = bytearray(img)
-                    struct.pack_into("<I", d, off, val)
-                    for ep in ("find_compile_stamps:mmap", "find_stage_prepend_append:mmap", "find_magic_pe:mmap", "from_file:mmap"):
-                        check_case({"data": bytes(d), "seed_kind": "crafted-mmap", "fault": f"mmap,{name}={val:#x}", "calls": [(ep, "default")]}, ctx)
         # claimed sizes that only a regular file takes at face value
         for arch in ("x86", "x64"):
             img, info = P.build_pe(rng, arch=arch, nsec=2)
